@@ -513,6 +513,15 @@ func c03Run(c *core.Ctx) *core.Result {
 			stats = append([]*types.Stat{fileStat(hlSrc)}, stats...)
 			os.Remove(filepath.Join(dest, hlSrc))
 			os.Symlink(core.Pick(R, []string{outside + "/file", outside + "/dir", up + rc + "/outside/file"}), filepath.Join(dest, hlSrc))
+			if R.P(1, 2) {
+				// the name of the new link already exists in dest as a second
+				// name of that very symlink ("already a name of the wanted
+				// inode" must not win over "the source is an older symlink")
+				os.RemoveAll(filepath.Join(dest, hlDst))
+				if os.Link(filepath.Join(dest, hlSrc), filepath.Join(dest, hlDst)) == nil {
+					r.Count("hl_member_is_second_name_of_the_symlink_scripts", 1)
+				}
+			}
 		}
 		m := hlStat(hlDst)
 		m.Mode = 0600
